@@ -210,10 +210,10 @@ CONSTANTS
 """
 
 
-def check_treelaws(prop, tier, seed, work, modes, invariants, also=(), explain=""):
+def check_treelaws(prop, tier, seed, work, modes, invariants, also=(), explain="", quick_cfgs=None):
     """C01/C19/C02/C14/C04: every well-formed tree of the slices is an initial state of TreeLaws;
     TLC checks the law on the model, each tree is replayed on the real code."""
-    cfgs = ["us", "cw"] if tier == "quick" else ["us", "uw", "cs", "cw", "co"]
+    cfgs = (quick_cfgs or ["us", "cw"]) if tier == "quick" else ["us", "uw", "cs", "cw", "co"]
     h, bindir = vf.prepare(work, cfgs)
     states = trans = 0
     results = []
@@ -1308,7 +1308,7 @@ PIPELINES = {
     "C10": lambda tier, seed, work: check_tree("C10", tier, seed, work, "set,setll", ["SetGetFrame"]),
     "C12": lambda tier, seed, work: check_tree("C12", tier, seed, work, "delete", ["DeleteExact"]),
     "C01": lambda tier, seed, work: check_treelaws("C01", tier, seed, work, "c01", ["RoundTrip7951"]),
-    "C19": lambda tier, seed, work: check_treelaws("C19", tier, seed, work, "c01", ["RoundTrip7951"]),
+    "C19": lambda tier, seed, work: check_treelaws("C19", tier, seed, work, "c01", ["RoundTrip7951"], quick_cfgs=["us", "uw", "cw"]),
     "C02": lambda tier, seed, work: check_treelaws("C02", tier, seed, work, "c02", ["RoundTripNotifs"]),
     "C14": lambda tier, seed, work: check_treelaws("C14", tier, seed, work, "c14", ["PruneLaws"]),
     "C03": lambda tier, seed, work: check_pairs("C03", tier, seed, work, "c03", ["DiffLaws"]),
